@@ -25,12 +25,12 @@ OBS_TIMEOUT_S = int(os.environ.get('VERIF_OBS_TIMEOUT_S', 60))
 def _observe_inner(req):
     try:
         mode = req.get('source_mode', 'pickle')
-        if mode != 'pickle':
+        if mode != 'pickle' or req.get('view', 'direct') != 'direct':
             import warnings
             import impl
             with warnings.catch_warnings():
                 warnings.simplefilter('ignore')
-                obs, _ = impl.observe(req['p'], req['idx'], req['keys'], req.get('cycle_k', 0), ctx=impl.Ctx(source_mode=mode))
+                obs, _ = impl.observe(req['p'], req['idx'], req['keys'], req.get('cycle_k', 0), ctx=impl.Ctx(source_mode=mode, view=req.get('view', 'direct')))
             return obs
         return pipefam.observe_impl(req)
     except Exception as e:  # noqa  harness failure, reported as such
@@ -200,6 +200,7 @@ class PipeProperty:
     required_ops = ()                  # generator self-test: ops that must occur at least `floor` times
     floor = 5
     source_modes = ('pickle',)         # immutable_warranty of the sources, cycled over the cases
+    views = ('direct',)                # transparent views through which the pipeline is observed, cycled over the cases
 
     def oracle(self, p, obs):
         """list of (clause, detail)"""
@@ -243,6 +244,7 @@ def run(pp, rep):
         reqs = [pipefam.make_request(p) for p in cases[c0:c0 + CHUNK]]
         for i, r in enumerate(reqs):
             r['source_mode'] = pp.source_modes[(c0 + i) % len(pp.source_modes)]
+            r['view'] = pp.views[(c0 + i) % len(pp.views)]
         impl_obs = observe_many(reqs, procs)
         model_obs = model.ask(reqs)
         if c0 == 0:
@@ -255,7 +257,7 @@ def run(pp, rep):
                 harness_errors += 1
                 continue
             if a.get('hang'):
-                mode_of[id(p)] = req.get('source_mode', 'pickle')
+                mode_of[id(p)] = req.get('source_mode', 'pickle') + '|' + req.get('view', 'direct')
                 oracle_fails.append((p, 'no_termination', {'timeout_s': OBS_TIMEOUT_S}, a))
                 continue
             for o in set(G.ops_of(p)):
@@ -272,14 +274,14 @@ def run(pp, rep):
                 err_hist['build:' + str(a.get('build'))] = err_hist.get('build:' + str(a.get('build')), 0) + 1
             d = restrict(pipefam.diff(a, b), pp.fields)
             if d and len(disagreements) < 500:
-                mode_of[id(p)] = req.get('source_mode', 'pickle')
+                mode_of[id(p)] = req.get('source_mode', 'pickle') + '|' + req.get('view', 'direct')
                 disagreements.append((p, d))
             for clause, detail in pp.oracle(p, a):
                 fid = pp.known(p, a, clause, detail, findings)
                 if fid is not None:
                     rep.known(fid, next((f['what'] for f in findings if f['id'] == fid), ''))
                 elif len(oracle_fails) < 500:
-                    mode_of[id(p)] = req.get('source_mode', 'pickle')
+                    mode_of[id(p)] = req.get('source_mode', 'pickle') + '|' + req.get('view', 'direct')
                     oracle_fails.append((p, clause, detail, a))
         del impl_obs, model_obs, reqs
     if harness_errors:
@@ -293,7 +295,8 @@ def run(pp, rep):
     # ---- judge ----------------------------------------------------------------------------
     def oracle_fails_on(p, mode='pickle'):
         req = pipefam.make_request(p)
-        req['source_mode'] = mode
+        req['source_mode'], _, vw = mode.partition('|')
+        req['view'] = vw or 'direct'
         obs = _observe(req)
         if obs.get('hang'):
             return [('no_termination', {'timeout_s': OBS_TIMEOUT_S})], obs
@@ -395,7 +398,8 @@ def replay(pp, j):
         print('replay names a proof obligation, nothing to execute:', j.get('what_no_longer_checks'))
         return 1
     req = pipefam.make_request(p)
-    req['source_mode'] = j.get('source_mode', 'pickle')
+    req['source_mode'], _, vw = j.get('source_mode', 'pickle').partition('|')
+    req['view'] = vw or 'direct'
     a = _observe(req)
     b = model.ask([req])[0]
     d = restrict(pipefam.diff(a, b), pp.fields)
